@@ -175,12 +175,10 @@ def rule_ownwaker(ctx, M):
     ctx.require(r is not None, "WakerVec::resize")
     ri = M.info(r)
     ok_init = False
-    for b in sorted(r.reachable):
-        for s in r.stmts(b):
-            if s["k"] == "assign" and not s["lhs"]["p"] and r.locals[s["lhs"]["l"]].get("name") == "index":
-                t = ri.T.of_rvalue(s["rv"], 0)
-                if t[0] == "call" and t[1][1] == "len" and t[2] and t[2][0] == ("field", ("param", 1), "wakers"):
-                    ok_init = True
+    for (_, cp, nb, st) in nested(M, ri):
+        caps = [ri.T.of_operand(f) for f in st["rv"]["fields"]]
+        if caps and caps[0][0] == "call" and caps[0][1][1] == "len" and caps[0][2] and caps[0][2][0] == ("field", ("param", 1), "wakers"):
+            ok_init = True
     ok_inc = False
     for (_, cp, nb, _) in nested(M, ri):
         if nb is None:
